@@ -221,20 +221,48 @@ def r18b(ctx: Context) -> None:
             rule.ok(func_key(func, node), "the one process exit")
         else:
             rule.fail(func_key(func, node), where(func, node), "process exit outside ReturnCodeHelper.exit_application bypasses the scheme table")
-    # the value given to sys.exit derives from apply_scheme(<parameter>)
+    # the value given to sys.exit is <scheme>.apply_scheme(<the parameter>), and apply_scheme looks its own
+    # parameter up in the scheme's mapping
     param = owner.params[0] if owner.params else None
+    applier = prog.method("pymarkdown.return_code_helper.SchemeDefinition", "apply_scheme")
     for func, node in owner_sites:
-        if isinstance(node, ast.Call) and node.args:
-            values = reaching_values(prog, owner, node.args[0])
-            good = False
-            for value in values:
-                text = norm(value)
-                if param and f"[{param}]" in text:
+        if not (isinstance(node, ast.Call) and node.args):
+            continue
+        good = False
+        arg = node.args[0]
+        candidates = [arg]
+        if isinstance(arg, ast.Name):
+            candidates = [n.value for n in walk_local(owner.node) if isinstance(n, ast.Assign) and any(isinstance(t, ast.Name) and t.id == arg.id for t in n.targets)]
+        for value in candidates:
+            if isinstance(value, ast.Call):
+                site = site_for(prog, owner, value)
+                if site and applier in site.targets and any(isinstance(a, ast.Name) and a.id == param for a in value.args):
                     good = True
-            if good:
-                rule.ok(func_key(owner) + ": mapping", "exit value = scheme_mapping[application_result]")
-            else:
-                rule.fail(func_key(owner) + ": mapping", where(owner, node), f"exit value does not derive from the scheme mapping of '{param}': {[norm(v) for v in values]}")
+        if good:
+            rule.ok(func_key(owner) + ": mapping", "exit value = scheme.apply_scheme(application_result)")
+        else:
+            rule.fail(func_key(owner) + ": mapping", where(owner, node), f"the exit value is not the chosen scheme's apply_scheme applied to '{param}'")
+    rets = returns_of(applier)
+    lookup_ok = False
+    applier_param = applier.params[1] if len(applier.params) > 1 else None
+    for ret in rets:
+        if isinstance(ret, ast.Subscript) and isinstance(ret.slice, ast.Name) and ret.slice.id == applier_param:
+            table = ret.value
+            sources = [table]
+            if isinstance(table, ast.Name):
+                sources = [n.value for n in walk_local(applier.node) if isinstance(n, ast.Assign) and any(isinstance(t, ast.Name) and t.id == table.id for t in n.targets)]
+            if any(isinstance(src, ast.Call) and norm(src.func).endswith("get_scheme_mapping") for src in sources):
+                lookup_ok = True
+    if lookup_ok:
+        rule.ok(func_key(applier), "return get_scheme_mapping()[application_result]")
+    else:
+        rule.fail(func_key(applier), where(applier), "apply_scheme does not return the mapping's entry for its argument (a default or a different key breaks the documented table)")
+    # the scheme object comes from the registry entry of the chosen name, with the default name as fallback
+    picks = [n for n in walk_local(owner.node) if isinstance(n, ast.Subscript) and "available_schemes" in norm(n.value)]
+    if picks:
+        rule.ok(func_key(owner) + ": scheme lookup", f"registry[{norm(picks[0].slice)}]")
+    else:
+        rule.fail(func_key(owner) + ": scheme lookup", where(owner), "exit_application does not take the scheme from the registry of available schemes")
     members = set(enum_members(prog))
     callers = prog.callers.get(owner.qualname, [])
     for site in callers:
